@@ -204,9 +204,11 @@ def run(world, rep, tier, only=None):
             hb = loop_head(fn, n)
             if hb is None:
                 continue
-            t = fn.blocks[hb].get("t") or {}
-            if t.get("k") == "while" and T.const(t.get("c")) not in (None, 0):
-                heads.add(hb)           # while (1)
+            # a loop whose own header tests a variable that every turn advances bounds itself (a for loop over the
+            # tags of a block, the walk over the fast-commit area); every other loop around the reader needs a counter
+            if any(b_ == hb for (c_, n_, b_) in loop_counter_exits(fn, hb, None, any_step=True)):
+                continue
+            heads.add(hb)
         for hb in sorted(heads):
             n_d += 1
 
